@@ -550,6 +550,7 @@ class Interp:
             if k.arg is None: kw.update(self.eval(k.value, env))
             else: kw[k.arg] = self.eval(k.value, env)
         self.run.lineno = n.lineno
+        self.cur_module = env.module; self.cur_env = env
         if isinstance(f, LibRef) and f.name == 'builtins.super':
             if args: return SuperRef(args[1], args[0].cls_key)
             return SuperRef(env_self(env), env_func_cls(env))
